@@ -57,7 +57,7 @@ PROFILES = {
     "C07": dict(policies=["fifo", "lru"], need_pressure=True, streaks=True, scenarios=True),
     "C08": dict(policies=["lfu", "arc", "tlru"], need_pressure=True, extra_ttl=[6, 10, 6], streaks=True, scenarios=True),
     "C15": dict(limit0=True),
-    "C16": dict(extremes=True),
+    "C16": dict(extremes=True, streaks=True),
     "ALL": dict(extra_ttl=[6], streaks=True),
 }
 
@@ -69,6 +69,12 @@ def gen_cfg(r, prof):
     limit = r.pick([None, 1, 2, 3, 4])
     ttl = r.pick([None, None, 1, 2, 3] + prof.get("extra_ttl", []))
     mem = r.pick([None, None] + MEMS)
+    if prof.get("extremes") and r.chance(1, 8):
+        # a frequency weight at the end of the float range: scores overflow to infinity and, for an entry that has
+        # outlived its ttl (lifetime factor 0), to NaN
+        pol, ttl, limit = "tlru", r.pick([1, 2]), r.pick([1, 2, 3])
+        fw = r.pick([(2000, 1), (1024, 1)]) if fl == "a" else r.pick([(10 ** 308, 1), (10 ** 307, 1)])
+        return dict(fl=fl, pol=pol, limit=limit, ttl=ttl, mem=r.pick([None, None, 100]), fw=fw)
     if prof.get("extremes") and r.chance(1, 6):
         # the ends of the integer ranges the attributes accept (u64 / usize)
         k = r.below(4)
